@@ -11,11 +11,6 @@ import Sqfs.Proofs.FailStopBlockProc
 namespace Sqfs.C13
 open Sqfs.FailStop
 
-theorem take_succ_getD {α : Type} (P : List α) (k : Nat) (d : α) (hk : k < P.length) :
-    P.take (k + 1) = P.take k ++ [P.getD k d] := by
-  rw [List.take_add_one]
-  simp [List.getD_eq_getElem?_getD, List.getElem?_eq_getElem hk]
-
 /-- When every result is checked the phases compose: the run is one walk over the whole program. -/
 theorem run_checked {v : Variant} (hA : AllChecked v) (c : Cfg) (fs : List Bool) :
     (run v c fs).trace = (runSites v c.quiet 0 (program c) fs {}).2.2 ∧
